@@ -79,32 +79,49 @@ def operator_matrix():
     return out
 
 
+def init_limit_programs():
+    """Global initializers whose evaluation overshoots the operand-stack limit of the core that runs the initialization code
+    (nested groupings and nested list literals keep their pending operands on the stack; the limits are polled once per
+    quantum of 50 instructions): with the tiny limit triple the overshoot happens inside `NewVM` from depth ~40 on, with the
+    default one at depth 600. In the entry module and in an imported one; long flat literals are the harmless neighbours."""
+    out = []
+    for n in (3, 12, 14, 40, 60, 100, 600):
+        nested = ["".join(f"{i} + (" for i in range(n)) + "1" + ")" * n, "[" * n + "1" + "]" * n,
+                  "[" + ", ".join(str(i) for i in range(n)) + "]"]
+        for e in nested:
+            out.append(f"let g = {e};\nfn main() {{ println(\"start\"); println(g); }}")
+        out.append(("import { g } from lib;\nfn main() { try { println(g); } catch e { println(\"caught\"); } }",
+                    {"lib": f"pub let g = {nested[n % 2]};\nfn main() {{ }}"}, None))
+    return out
+
+
 def judge(ctx, srcs, limits, label, compare_spec=True):
+    """srcs: main texts, or (main, mods, singletons) triples (see progstream.run_all)."""
     res = progstream.run_all(srcs, limits=limits, call_limit=limits[0], with_spec=compare_spec)
     for src, r in zip(srcs, res):
         if not r["A"].startswith("ACCEPT") and not r.get("crashed"):
             if r["A"].startswith("PANIC"):
-                ctx.count(case_key=(src, limits), nontrivial=True)
-                ctx.violation({"kind": "prog", "main": src, "limits": list(limits), "go": r["A"][:300]}, f"{label}: the analyzer panicked: {r['A'][:120]}")
+                ctx.count(case_key=(progstream.source_text(src), limits), nontrivial=True)
+                ctx.violation({"kind": "prog", **progstream.source_record(src), "limits": list(limits), "go": r["A"][:300]}, f"{label}: the analyzer panicked: {r['A'][:120]}")
             continue
-        ctx.count(case_key=(src, limits), nontrivial=True)
+        ctx.count(case_key=(progstream.source_text(src), limits), nontrivial=True)
         if r.get("crashed"):
-            ctx.violation({"kind": "prog", "main": src, "limits": list(limits), "go": r["A"][:300]},
+            ctx.violation({"kind": "prog", **progstream.source_record(src), "limits": list(limits), "go": r["A"][:300]},
                           f"{label}: an accepted program crashed or wedged the host under limits {limits}: {r['A'][:120]}")
             continue
-        ctx.sample({"main": src[:200], "limits": list(limits), "vm": (r.get("VM") or {}).get("raw", "")[:120]}, limit=4)
+        ctx.sample({"main": progstream.source_text(src)[:200], "limits": list(limits), "vm": (r.get("VM") or {}).get("raw", "")[:120]}, limit=4)
         for bname in ("VM", "TREE"):
             o = r.get(bname)
             if o is None:
                 continue
             if o["cls"] in ("PANIC", "CRASH", "HANG", "COMPILE-ERROR"):
-                ctx.violation({"kind": "prog", "main": src, "limits": list(limits), bname: o.get("raw", "")[:400]},
+                ctx.violation({"kind": "prog", **progstream.source_record(src), "limits": list(limits), bname: o.get("raw", "")[:400]},
                               f"{label}: {bname} under limits {limits}: {o['cls']} {o.get('what', '')[:100]}")
                 break
             if o["cls"] == "TERM":
                 rr = progstream.run_all([src], limits=limits, with_spec=False, timeout_ms=60000)[0].get(bname, o)
                 if rr["cls"] == "TERM":
-                    ctx.violation({"kind": "prog", "main": src, "limits": list(limits), bname: rr.get("raw", "")[:400]},
+                    ctx.violation({"kind": "prog", **progstream.source_record(src), "limits": list(limits), bname: rr.get("raw", "")[:400]},
                                   f"{label}: {bname} under limits {limits} does not return (wedged until the host's timeout)")
                     break
 
@@ -124,6 +141,18 @@ def run(ctx):
     ctx.coverage["operator_matrix_programs"] = len(matrix)
     for i in range(0, len(matrix), 3000):
         judge(ctx, matrix[i:i + 3000], LIMITS[0], "C02 operator matrix", compare_spec=False)
+    # global initializers that throw (or overshoot a limit) while the VM is constructed, entry and imported modules (G1):
+    # the host gets an interrupt back from both backends under every limit triple, never a panic out of the constructor
+    ginit = families.global_init_failures() + init_limit_programs()
+    ctx.coverage["global_init_programs"] = len(ginit)
+    for lim in LIMITS:
+        judge(ctx, ginit, lim, "C02 global initializers", compare_spec=False)
+    # `spawn` in every shape (S1): what the analyzer accepts compiles to Opcode_Spawn and runs on both backends under
+    # every limit triple; spawns of function values and `join` on the result have to be rejected (skipped by the judge)
+    spawns = families.spawn_programs()
+    ctx.coverage["spawn_programs"] = len(spawns)
+    for lim in LIMITS:
+        judge(ctx, spawns, lim, "C02 spawn", compare_spec=False)
     n = 400 if ctx.tier == "quick" else 6000
     srcs = [progs.generate(ctx.rng, max_depth=ctx.rng.choice([2, 3, 4]), fault_rate=0.15)[0] for _ in range(n)]
     for lim in LIMITS:
@@ -159,8 +188,8 @@ def replay(ctx, rep):
         print("replay names a broken obligation, not an input:", rep)
         return 1
     lim = tuple(rep.get("limits", LIMITS[0]))
-    r = progstream.run_all([rep["main"]], limits=lim, with_spec=False)[0]
-    print(rep["main"], lim)
+    r = progstream.run_all([progstream.source_of_record(rep)], limits=lim, with_spec=False)[0]
+    print(progstream.source_text(progstream.source_of_record(rep)), lim)
     bad = r.get("crashed", False)
     for k in ("VM", "TREE"):
         o = r.get(k)
